@@ -152,6 +152,23 @@ pub fn check(s: &Scenario) -> CheckResult {
                 set_state(nodes[0].dev.terms[j], Datum::new(Time(ri as i64), st([1.0 + j as f32, 0.5, -0.25])));
             }
         }
+        // one-DOF chains: measured states travel over the same terminals as commands and must not touch them - in
+        // particular not their timestamps; the states are stamped differently from every command (odd offsets above the range
+        // the commands use), on external terminals and on unconnected device terminals alike
+        if !is_diff && s.with_states {
+            for k in 0..m {
+                for j in 0..nodes[k].spec.terminals() {
+                    if (ri + k + j) % 2 == 0 {
+                        let t = Time(s.time_base.saturating_add(70_001 + 2 * (8 * ri as i64 + j as i64)));
+                        let d = Datum::new(t, st([0.5 + j as f32, -0.25 * (k as f32 + 1.0), 0.125]));
+                        match nodes[k].ext[j] {
+                            Some(e) => set_state(e, d),
+                            None => set_state(nodes[k].dev.terms[j], d),
+                        }
+                    }
+                }
+            }
+        }
         // ---- update order ----
         let order: Vec<usize> = match round.order % 3 {
             0 => (0..m).collect(),
@@ -288,7 +305,7 @@ impl Property for C13 {
     type Scenario = Scenario;
     fn strategy(_tier: Tier) -> BoxedStrategy<Scenario> {
         let base = || prop_oneof![4 => Just(0i64), 2 => Just(i64::MIN), 1 => -100_000i64..0, 1 => any::<i64>().prop_map(|t| t.clamp(i64::MIN, i64::MAX - 1_000_000_000))];
-        let chain = (proptest::collection::vec(one_dof(), 1..=5), proptest::collection::vec(round(), 1..=8), base(), prop_oneof![3 => Just(0u64), 1 => any::<u64>(), 1 => Just(u64::MAX)]).prop_map(|(devs, rounds, time_base, free_mask)| Scenario { devs, rounds, with_states: false, time_base, free_mask });
+        let chain = (proptest::collection::vec(one_dof(), 1..=5), proptest::collection::vec(round(), 1..=8), base(), prop_oneof![3 => Just(0u64), 1 => any::<u64>(), 1 => Just(u64::MAX)], proptest::bool::weighted(0.4)).prop_map(|(devs, rounds, time_base, free_mask, with_states)| Scenario { devs, rounds, with_states, time_base, free_mask });
         let single_axle1 = (proptest::collection::vec(round(), 1..=4)).prop_map(|rounds| Scenario { devs: vec![DevSpec::Axle(1)], rounds, with_states: false, time_base: 0, free_mask: 0 });
         let diff = ((0u8..4), proptest::collection::vec(round(), 1..=6), any::<bool>()).prop_map(|(mode, rounds, with_states)| Scenario { devs: vec![DevSpec::Diff(mode)], rounds, with_states, time_base: 0, free_mask: 0 });
         prop_oneof![8 => chain, 1 => single_axle1, 2 => diff].boxed()
